@@ -301,7 +301,7 @@ PLANS = {
         'race': True,
         'mc': [{'module': 'MC_C19', 'what': 'UURandom: 3 goroutines x 2 calls, all interleavings: mutual exclusion, consecutive draws, no sharing; liveness AllDone'},
                {'module': 'MC_C19', 'cfg': 'MC_C19_nolock', 'expect_violation': 'Consecutive', 'what': 'negative control: without the lock TLC finds interleaved draws'}],
-        'drivers': [{'name': 'c19', 'shards': 4, 'race': True}],
+        'drivers': [{'name': 'c19', 'shards': 4, 'race': True}, {'name': 'c19bulk', 'shards': 3}],
 
         'legs': [race_leg, 'apalache_masks',
                  vf.apalache_leg('UURandomInd', 'IndInv', 0, 'lock protocol: Init => IndInv (5 goroutines, unbounded calls)', init='Init'),
